@@ -200,3 +200,66 @@ func (n *normalizer) forPostRound() bool {
 	}
 	return changed
 }
+
+// forCondRound: `for init; C; post { B }` whose condition calls a new helper becomes `for init; ; post { if !(C) { break };
+// B }`: the condition is evaluated at the same points (on entry, after post, after a continue), and the call now stands
+// in an `if`, where the inliner reaches it. Refused when B contains an unlabelled break inside a switch/select that
+// would be unaffected anyway — nothing changes for those — or a label on the loop (kept simple: loops without a label).
+func (n *normalizer) forCondRound() bool {
+	changed := false
+	for _, f := range n.pp.Syntax {
+		filename := n.fset.File(f.Pos()).Name()
+		var stack []ast.Node
+		ast.Inspect(f, func(x ast.Node) bool {
+			if x == nil {
+				stack = stack[:len(stack)-1]
+				return true
+			}
+			stack = append(stack, x)
+			fs, ok := x.(*ast.ForStmt)
+			if !ok || fs.Cond == nil || changed {
+				return true
+			}
+			if len(stack) >= 2 {
+				if _, isLabeled := stack[len(stack)-2].(*ast.LabeledStmt); isLabeled {
+					return true
+				}
+			}
+			has := false
+			ast.Inspect(fs.Cond, func(y ast.Node) bool {
+				switch z := y.(type) {
+				case *ast.FuncLit:
+					return false
+				case *ast.CallExpr:
+					if callee, _ := n.calleeOf(z); callee != nil && n.helpers[callee] {
+						has = true
+					}
+				}
+				return true
+			})
+			if !has {
+				return true
+			}
+			cs, ce := n.off(fs.Cond.Pos()), n.off(fs.Cond.End())
+			lb := n.off(fs.Body.Lbrace) + 1
+			if n.overlaps(filename, cs, ce) || n.overlaps(filename, lb, lb) {
+				return true
+			}
+			cond := n.src(filename, fs.Cond.Pos(), fs.Cond.End())
+			line := n.fset.Position(fs.Cond.Pos()).Line
+			repl := ""
+			if fs.Init == nil && fs.Post == nil {
+				repl = "" // `for C {` -> `for {`
+			}
+			n.addEdit(filename, cs, ce, repl)
+			n.addEdit(filename, lb, lb, "\n"+n.lineDirective(filename, line)+"if !("+cond+") {\n"+n.lineDirective(filename, line)+"break\n"+n.lineDirective(filename, line)+"}\n"+n.lineDirective(filename, n.fset.Position(fs.Body.Lbrace).Line+1))
+			n.notes = append(n.notes, fmt.Sprintf("condition of the loop at %s:%d written as a break at the top of its body", shortFile(filename), line))
+			changed = true
+			return false
+		})
+		if changed {
+			break
+		}
+	}
+	return changed
+}
